@@ -52,3 +52,7 @@ ZB="pkg/zebra"
 add("C19.zebra_header","VH_c19_zebra_header",ZB,["zebra/c19.go"],{"n":12},{"n":16},expect_reach=["ok","end"])
 for nm,nq in [("if",24),("ifaddr",20),("rid",20),("nhupd",16),("redist",12),("route",9),("lmconn",12),("chunk",16),("vrflbl",12),("lookup",12),("rawcmd",6)]:
     add("C19.zebra_body_"+nm,"VH_c19_zebra_body_"+nm,ZB,["zebra/c19.go"],{"n":nq},{"n":nq+8},expect_reach=["end"],bounds="ZAPI body of 0..n bytes (+8 stale) for the named command, 8 (protocol version, software flavour) pairs covering versions 2..6")
+c02=tc+["table/c02.go","table/c03.go","table/c14.go"]
+add("C02.locrib_step","VH_c02_locrib_step",TBL,c02,{"params":{"steps":3,"segs":1},"unwind":300},{"params":{"steps":4,"segs":1},"unwind":300},merge=C3M,expect_reach=["end"],bounds="histories of `steps` operations (announce/withdraw, dropped or not) on one destination from 3 sources x 2 path-ids, LOCAL_PREF and timestamps symbolic")
+add("C02.adj_step","VH_c02_adj_step",TBL,c02,{"params":{"steps":2,"segs":1},"unwind":2200},{"params":{"steps":3,"segs":1},"unwind":2200,"harness_s":2400},expect_reach=["end"],bounds="histories of `steps` Adj-RIB-In updates over 2 prefixes x 2 path-ids, withdraw and rejected flags symbolic")
+add("C02.snapshot_independent","VH_c02_snapshot_independent",TBL,c02,{"params":{"segs":1},"unwind":2200},{"params":{"segs":1},"unwind":2200},merge=C3M,expect_reach=["end"])
